@@ -83,10 +83,11 @@ type RawRange struct {
 // Case is one generated CMap (chain).  Layers[0] is the CMap under test,
 // Layers[1] its parent, Layers[2] the grandparent.
 type Case struct {
-	Kind    string     `json:"kind"` // "cid", "tu", "cid-raw", "tu-raw"
+	Kind    string     `json:"kind"` // "cid", "tu", "cid-raw", "tu-raw", "ops"
 	Layers  []Layer    `json:"layers"`
 	Notdef  *Notdef    `json:"notdef,omitempty"`
 	Raw     []RawRange `json:"raw,omitempty"`
+	Ops     []Op       `json:"ops,omitempty"` // kind "ops": operation sequence over several Files
 	Probes  []gen.Hex  `json:"probes,omitempty"`
 	Pretty  bool       `json:"pretty"`
 	Version int        `json:"version"` // index into versions
@@ -107,6 +108,8 @@ type observed struct {
 	nonRect           bool // a malformed raw range with First <= Last as byte strings
 	reversed          bool // a malformed raw range with First > Last as byte strings
 	extractRejected   bool // Extract refused the file (reversed ranges only)
+	opsSteps          int
+	opsClasses        []string
 	hugeRawRange      bool // a raw cidrange with more codes than can be enumerated
 	hugeBeyondCap     bool // ... probed at a position above math.MaxInt32
 }
